@@ -1,6 +1,8 @@
 From Coq Require Import List NArith Bool.
 From V.gen Require Consts.
 From V.C12 Require Import Model Proofs Inv2 Async Sched Progress Live.
+From V.C11 Require Model PAlt.
+From V.Link Require C11_C12.
 Import ListNotations.
 Open Scope N_scope.
 From V.C12 Require Import Properties.
@@ -197,6 +199,15 @@ Check (C12_first_delivered_is_first_accepted :
 Check (C12_quiescence_is_a_schedule :
   forall (c : cfg) (hs : list (list bool)) (xs : list action),
     exists ts, arun c 0 (init hs) xs = final c hs ts).
+Check (C12_setup_condition_not_provided_by_C11 :
+  let r := V.C11.Model.run V.C11.PAlt.cfg_w V.C11.Model.init V.Link.C11_C12.w_reopen_while_closing in
+  let s := V.C11.PAlt.last_state V.C11.PAlt.cfg_w V.Link.C11_C12.w_reopen_while_closing in
+  snd r = true /\
+  V.C11.PAlt.events (fst r) =
+    [V.C11.Model.UOpened 0 V.C11.Model.DOut; V.C11.Model.UClosed 0; V.C11.Model.UValidate 0;
+     V.C11.Model.UOpened 0 V.C11.Model.DIn] /\
+  V.C11.Model.ps s 0 = Some (V.C11.Model.Open 1) /\
+  V.C11.Model.tasks s = [V.C11.Model.mkTask 0 0 (Some false) true; V.C11.Model.mkTask 1 0 None false]).
 From Coq Require Import List NArith Bool.
 From V.C12 Require Import Start StartProofs.
 From V.gen Require C12Tables.
